@@ -75,6 +75,7 @@ type Setup struct {
 	CreditUsers []int             `json:"credit_users"`
 	Sponsor     int               `json:"sponsor"` // dev account index sponsoring CreditTo, -1 none
 	SponsorSel  bool              `json:"sponsor_selected"`
+	PoS         bool              `json:"pos,omitempty"` // world built on a chain where HAYABUSA (block 2) is active and PoS has taken over (block 4)
 }
 
 type Case struct {
@@ -171,6 +172,7 @@ type World struct {
 	Head  thor.Bytes32
 	minor uint32
 	TxIDs []thor.Bytes32 // ids of the transactions built so far (DependsOn refers to them)
+	closer func()
 }
 
 func (w *World) head() thor.Bytes32 {
@@ -190,7 +192,12 @@ func (w *World) stopTime(root trie.Root, T uint64) uint64 {
 }
 
 // Close releases the in-memory leveldb instance behind the world (its goroutines keep it alive otherwise).
-func (w *World) Close() { w.DB.Close() }
+func (w *World) Close() {
+	if w.closer != nil {
+		w.closer()
+	}
+	w.DB.Close()
+}
 
 func (w *World) Know(a thor.Address) { w.Known[thor.Blake2b(a[:])] = a }
 
@@ -212,6 +219,9 @@ func genesisFor(fc thor.ForkConfig) *genesis.Genesis {
 }
 
 func NewWorld(s *Setup) *World {
+	if s.PoS {
+		return newPoSWorld(s)
+	}
 	hayabusaTP := uint32(math.MaxUint32)
 	thor.SetConfig(thor.Config{HayabusaTP: &hayabusaTP})
 	fc := thor.SoloFork
@@ -229,6 +239,22 @@ func NewWorld(s *Setup) *World {
 	}
 	w := &World{DB: db, Repo: repo, Fork: &fc, Genesis: b0.Header().ID(), GenTime: b0.Header().Timestamp(),
 		Root: trie.Root{Hash: b0.Header().StateRoot()}, Known: map[thor.Bytes32]thor.Address{}, Setup: s}
+	w.knowBasics()
+	st := state.New(db, w.Root)
+	w.applyGenerated(st, w.GenTime)
+	w.commit(st)
+	if s.Number == s.Galactica {
+		// runtime.New installs builtin / precompile code at the fork block: do it once so that it is part of the pre-state
+		st := state.New(db, w.Root)
+		ctx, _ := w.blockCtx()
+		runtime.New(repo.NewChain(w.Genesis), st, ctx, w.Fork)
+		w.commit(st)
+	}
+	return w
+}
+
+func (w *World) knowBasics() {
+	s := w.Setup
 	for _, a := range genesis.DevAccounts() {
 		w.Know(a.Address)
 	}
@@ -243,9 +269,13 @@ func NewWorld(s *Setup) *World {
 		w.Know(thor.BytesToAddress([]byte{byte(i)}))
 	}
 	w.Know(parseAddr(s.Benef))
+}
+
+// applyGenerated writes the generated part of the state (contracts, funds, credit plans) directly: these are the generated
+// *states* of the quantifier.
+func (w *World) applyGenerated(st *state.State, t0 uint64) {
+	s := w.Setup
 	// generated state: contracts, funds, credit plans — written directly (these are the generated *states* of the quantifier)
-	st := state.New(db, w.Root)
-	t0 := w.GenTime
 	for a, code := range Codes {
 		b, _ := hex.DecodeString(code)
 		if err := st.SetCode(a, b); err != nil {
@@ -291,15 +321,6 @@ func NewWorld(s *Setup) *World {
 			}
 		}
 	}
-	w.commit(st)
-	if s.Number == s.Galactica {
-		// runtime.New installs builtin / precompile code at the fork block: do it once so that it is part of the pre-state
-		st := state.New(db, w.Root)
-		ctx, _ := w.blockCtx()
-		runtime.New(repo.NewChain(w.Genesis), st, ctx, w.Fork)
-		w.commit(st)
-	}
-	return w
 }
 
 func (w *World) commit(st *state.State) {
@@ -570,12 +591,11 @@ func (w *World) Prepare(spec *TxSpec, trx *tx.Transaction) *Obs {
 		o.SigOK = true
 		w.Know(o.Origin)
 	}
-	if o.SigOK {
-		if o.Delegator, err = trx.Delegator(); err == nil {
-			o.DelegOK = true
-			if o.Delegator != nil {
-				w.Know(*o.Delegator)
-			}
+	if d, err := trx.Delegator(); err == nil { // independent of the origin's recovery (Flow.Adopt checks it on its own)
+		o.DelegOK = true
+		if d != nil && o.SigOK {
+			o.Delegator = d
+			w.Know(*d)
 		}
 	}
 	if ig, err := trx.IntrinsicGas(); err == nil {
@@ -817,7 +837,7 @@ func (w *World) oracleSections(o *Obs) string {
 		deleg = addrN(*o.Delegator)
 	}
 	fmt.Fprintf(&sb, " %s %x %x %s %s %s %s %s %s %x %s %s %s |", b01(o.Spec.Dynamic), o.Spec.Gas, o.Spec.Coef, hexBig(o.Tx.MaxFeePerGas()),
-		hexBig(o.Tx.MaxPriorityFeePerGas()), addrN(o.Origin), b01(o.SigOK), deleg, b01(o.DelegOK || !o.SigOK), o.Tx.BlockRef().Number(),
+		hexBig(o.Tx.MaxPriorityFeePerGas()), addrN(o.Origin), b01(o.SigOK), deleg, b01(o.DelegOK), o.Tx.BlockRef().Number(),
 		hexBig(o.PWCtx), hexBig(o.PWFin), b01(o.CtxErr))
 	for _, c := range o.Tx.Clauses() {
 		to := "-"
@@ -1081,8 +1101,14 @@ func GenClause(r *hx.Rand, s *Setup, mild bool) ClauseSpec {
 	if mild && kind == 9 {
 		kind = 8
 	}
+	if s.PoS && r.Chance(1, 4) {
+		return stakerClause(r)
+	}
 	switch kind {
 	case 0: // plain transfer
+		if r.Chance(1, 5) {
+			return ClauseSpec{To: s.Benef, Value: val}
+		}
 		return ClauseSpec{To: AddrHex(anyTarget(r)), Value: val}
 	case 1: // creation
 		return ClauseSpec{To: "", Value: val, Data: InitCodes[r.Intn(len(InitCodes))]}
@@ -1099,8 +1125,11 @@ func GenClause(r *hx.Rand, s *Setup, mild bool) ClauseSpec {
 	case 5: // contract spends its own energy through the builtin
 		amt := new(big.Int).Mul(big.NewInt(int64(r.Intn(200))), big.NewInt(1e15))
 		return ClauseSpec{To: AddrHex(AddrForward), Value: "0", Data: Word(builtin.Energy.Address) + energyTransferData(anyTarget(r), amt)}
-	case 6: // self-destruct to a chosen beneficiary (sometimes itself)
+	case 6: // self-destruct to a chosen beneficiary (sometimes itself, sometimes the block beneficiary)
 		b := anyTarget(r)
+		if r.Chance(1, 4) {
+			b = parseAddr(s.Benef)
+		}
 		if r.Chance(1, 5) {
 			b = AddrSelfDestructTo
 		}
@@ -1214,8 +1243,23 @@ func GenTx(r *hx.Rand, s *Setup, w *World) TxSpec {
 	return t
 }
 
+// GenSetupPoS: the same generated state on top of a chain where HAYABUSA is active (energy growth stopped at block 2) and
+// PoS has taken over; GALACTICA before / at / after the HAYABUSA height or never.
+func GenSetupPoS(r *hx.Rand) Setup {
+	s := GenSetup(r)
+	s.PoS = true
+	s.Galactica = []uint32{1, 2, 3, 5, 1000}[r.Intn(5)]
+	s.Number = uint32(6 + r.Intn(25))
+	s.TimeDelta = uint64(60 + 10*r.Intn(100000))
+	s.GasLimit = 40_000_000
+	return s
+}
+
 func GenCase(r *hx.Rand) *Case {
 	c := &Case{Setup: GenSetup(r)}
+	if r.Chance(1, 6) {
+		c.Setup = GenSetupPoS(r)
+	}
 	w := NewWorld(&c.Setup)
 	defer w.Close()
 	n := 1 + r.Intn(4)
